@@ -1214,8 +1214,59 @@ def validate_notify(rng, n, res):
     res.extra["translation_validation_notify"] = stats
 
 
+def validate_delay_get_data(rng, n, res):
+    """`TimeDelayAdapter.get_data` of real `DelayFixed` adapters whose upstream pull is recorded: sequences of requests by
+    one or two end points (interleaving, going back in time), the recorded upstream requests compared with the
+    translated definition evaluated with the translated `DelayFixed.with_delay`"""
+    if not all(common.TRANSLATION_STATUS.get(f, {}).get("translated") for f in ("TimeDelayAdapter_get_data", "DelayFixed_with_delay")):
+        return
+    hour = dt.timedelta(hours=1)
+    reqs, reals = [], []
+    stats = {"TimeDelayAdapter_get_data": 0, "adapters": 0, "back_in_time": 0, "mismatch": 0}
+    for _ in range(n):
+        d, init = rng.choice([0, 1, 2, 3, 5]), rng.choice([0, 0, 2])
+        adp = fm.adapters.DelayFixed(d * hour)
+        adp.initial_time = EPOCH + init * hour
+        adp._output_info = fm.Info(time=EPOCH, grid=fm.NoGrid(), units="m")
+        seen = []
+        tg = [object(), object()]
+        tid = {id(o): k for k, o in enumerate(tg)}
+        adp.pull_data = lambda t, target=None, seen=seen: (seen.append([us_of(t), tid[id(target)]]), fm.UNITS.Quantity(np.array(7.0), "m"))[1]
+        pulled = []
+        adp._pulled = lambda t, pulled=pulled: pulled.append(us_of(t))
+        stats["adapters"] += 1
+        last = None
+        for _k in range(rng.randint(1, 5)):
+            t = init + rng.randint(0, 9)
+            if last is not None and t < last:
+                stats["back_in_time"] += 1
+            last = t
+            who = rng.choice(tg)
+            before = [[list(x) for x in seen], list(pulled)]
+            try:
+                v = adp.get_data(EPOCH + t * hour, who)
+                real = {"ok": [int(round(float(np.asarray(fm.data.get_magnitude(v)).reshape(-1)[0]))), list(pulled), [list(x) for x in seen]]}
+            except Exception as e:  # noqa
+                real = {"err": err_class(e)}
+            reqs.append({"fn": "TimeDelayAdapter_get_data", "args": before + [us_of(EPOCH + t * hour), tid[id(who)], d * 3_600_000_000, us_of(adp.initial_time), 7]})
+            reals.append(real)
+    for rq, real, lv in zip(reqs, reals, _trdriver(reqs)):
+        stats["TimeDelayAdapter_get_data"] += 1
+        if "err" in real or "err" in lv:
+            agree = real.get("err") == lv.get("err")
+        else:
+            a, (p, r) = lv["ok"][0], (lv["ok"][1][0], lv["ok"][1][1])
+            agree = [a, list(p), [list(x) for x in r]] == real["ok"]
+        if not agree:
+            stats["mismatch"] += 1
+            res.diverge("translation/" + rq["fn"], {"fn": rq["fn"], "args": rq["args"]}, real, lv)
+    res.extra["translation_validation_delay_get_data"] = stats
+
+
 def validate(prop, rng, n_per_fn, res):
     """runs the validation for the translated functions owned by `prop`; divergences go to `res`"""
+    if prop in ("C13", "C02") and os.path.exists(TRDRIVER):
+        validate_delay_get_data(rng, max(100, n_per_fn), res)
     if prop in ("C01", "C11", "C12") and os.path.exists(TRDRIVER):
         validate_notify(rng, max(150, n_per_fn), res)
     if prop == "C06" and os.path.exists(TRDRIVER):
@@ -1275,7 +1326,9 @@ def validate(prop, rng, n_per_fn, res):
         st = stats.setdefault(sp["lean"], {"cases": 0, "ok": 0, "errors": {}, "mismatch": 0})
         st["cases"] += 1
         agree = True
-        if "err" in real or "err" in lean:
+        if "ok" not in lean and "err" not in lean:
+            agree = False    # the translated definition did not answer (it no longer builds into the driver)
+        elif "err" in real or "err" in lean:
             agree = real.get("err") == lean.get("err")
             if "err" in real:
                 st["errors"][real["err"]] = st["errors"].get(real["err"], 0) + 1
